@@ -36,7 +36,10 @@ claim("C02", "DESIGN.md section 4 C02 + section 11",
       "traversal with its substitution stack, fresh-name counter, alpha-renaming, beta-reduction with Python argument binding, the seven fusion "
       "rules with their re-visits, literal/dictionary projection): for every fuel, counter, backend and admissible query, if the simplifier model "
       "returns a query then on every dataset whatever the original evaluates to the result evaluates to (lambdas refine pointwise), and the "
-      "result is again admissible; plus the rule-level theorems, alpha-renaming and environment lemmas. Partial in one respect, stated in the "
+      "result is again admissible; resimplified_sessions_preserve_query_results (Proofs/SimplifySession.v): a backend session that simplifies, puts "
+      "further operators on the result and simplifies again any number of times, each run from the counter the previous one left behind, ends with a "
+      "refinement of the chain written in one piece (counter_set_back_between_runs_refuted: a witness that setting the counter back breaks it; the "
+      "check runs such histories on the code, model started from the same counter); plus the rule-level theorems, alpha-renaming and environment lemmas. Partial in one respect, stated in the "
       "theorem: queries mentioning First are outside it (the First push-through is not a refinement for the eager list semantics; rule theorems "
       "state what holds) - those rest on the exact model/code correspondence (modulo names of lambda parameters) and the CPython oracle with lazy "
       "sequences over three binder-naming schemes and 6 datasets.",
